@@ -513,6 +513,57 @@ func c09ForEach(tier string, shard, shards int, from int64, f func(idx int64, si
 			}
 		}
 	}
+	// (b1) the sequence-field grid: every administrative/application type with every small MsgSeqNum, PossDup,
+	// NewSeqNo/GapFill and BeginSeqNo/EndSeqNo combination, fed to every session state (kept while recovering,
+	// then drained by the follow-up TestRequest that fills the gap)
+	{
+		now := fixscan.Stamp(time.Now())
+		for _, typ := range []string{"0", "1", "2", "4", "5", "A", "D"} {
+			for seq := 1; seq <= 5; seq++ {
+				for _, pd := range []bool{false, true} {
+					base := []fixscan.Field{{8, "FIX.4.2"}, {35, typ}, {34, strconv.Itoa(seq)}, {49, "TW"}, {52, now}, {56, "ISLD"}}
+					if pd {
+						base = append(base, fixscan.Field{43, "Y"}, fixscan.Field{122, now})
+					}
+					var variants [][]fixscan.Field
+					switch typ {
+					case "4":
+						for ns := 1; ns <= 6; ns++ {
+							for _, gf := range []string{"N", "Y"} {
+								variants = append(variants, append(append([]fixscan.Field{}, base...), fixscan.Field{123, gf}, fixscan.Field{36, strconv.Itoa(ns)}))
+							}
+						}
+					case "2":
+						for b := 0; b <= 4; b++ {
+							for _, e := range []int{0, 1, 3, 9} {
+								variants = append(variants, append(append([]fixscan.Field{}, base...), fixscan.Field{7, strconv.Itoa(b)}, fixscan.Field{16, strconv.Itoa(e)}))
+							}
+						}
+					case "1":
+						variants = append(variants, append(append([]fixscan.Field{}, base...), fixscan.Field{112, "Q"}))
+					case "A":
+						variants = append(variants, append(append([]fixscan.Field{}, base...), fixscan.Field{98, "0"}, fixscan.Field{108, "30"}))
+						variants = append(variants, append(append([]fixscan.Field{}, base...), fixscan.Field{98, "0"}, fixscan.Field{108, "30"}, fixscan.Field{141, "Y"}))
+					case "D":
+						variants = append(variants, append(append([]fixscan.Field{}, base...), fixscan.Field{11, "ID"}, fixscan.Field{21, "1"}, fixscan.Field{55, "IBM"}, fixscan.Field{54, "1"}, fixscan.Field{60, now}, fixscan.Field{40, "1"}))
+					default:
+						variants = append(variants, base)
+					}
+					for vi, v := range variants {
+						in := fixscan.Build(v)
+						desc := fmt.Sprintf("grid:%s seq=%d possdup=%v variant=%d", typ, seq, pd, vi)
+						for sti := range c09States {
+							sti := sti
+							if c09States[sti].cfg.BeginString != "" {
+								continue
+							}
+							emit("session:"+c09States[sti].name, in, desc, func(d *c09Dicts) string { return sinkSession(in, sti) })
+						}
+					}
+				}
+			}
+		}
+	}
 	// (b2) every field of every shipped dictionary once in a message validated against that dictionary
 	// (validation looks at the declared type of every field it meets, whatever the message type)
 	if c13Load() == nil {
